@@ -109,14 +109,18 @@ def gen_tags(r, txn):
             out.append('{source}')
         elif k < 0.9:
             out.append('{field.%s}' % r.choice(FIELD_NAMES))
-        elif k < 0.95:
+        elif k < 0.93:
             out.append('{extract(field.memo, "PROJ:(\\\\w+)")}')
+        elif k < 0.96:
+            # braces inside the expression of a dynamic tag (counted repetition)
+            out.append(r.choice(['{extract(field.memo, "PROJ:(\\\\w{3,4})")}', '{extract(description, "([A-Z]{4})")}',
+                                 '{regex_replace(source, "[a-z]{2}", "#")}']))
         else:
             out.append('{lowercase(description)}')
     return out
 
 
-def gen_rules_file(r, txn, n=None, force_ties=False):
+def gen_rules_file(r, txn, n=None, force_ties=False, dup_names=False):
     """Returns an abstract rules file: dict(variables, transforms, rules=[dict(...)])."""
     n = n if n is not None else r.choice([1, 2, 3, 4, 5, 6, 8])
     variables = {}
@@ -140,6 +144,8 @@ def gen_rules_file(r, txn, n=None, force_ties=False):
         tag_only = r.random() < 0.3
         cat = r.choice(CATS)
         name = r.choice(['Rule', 'Shop', 'Ride', 'Tag', 'Big', 'X']) + str(i)
+        if dup_names and rules and r.random() < 0.25:
+            name = r.choice(rules)['name']        # several sections may carry the same name ([Amazon] … [Amazon])
         m = gen_match(r, txn, tuple(variables))
         if force_ties and shared_expr is not None and r.random() < 0.5:
             m = shared_expr
@@ -237,7 +243,10 @@ def gen_csv_rules(r, txn, n=None, expression_like=True):
         tags = '|'.join(r.sample(['business', 'Travel', '{field.type}', 'income'], r.choice([0, 0, 1, 2])))
         if tag_only and not tags:
             tags = 'misc'
-        rows.append((pat + mods, f'M{i} {tok.title()}', '' if tag_only else cat[0], '' if tag_only else cat[1], tags))
+        cell = pat + mods
+        if rows and r.random() < 0.12:
+            cell = r.choice(rows)[0]           # merged / appended files repeat a Pattern cell; the EARLIER row still decides
+        rows.append((cell, f'M{i} {tok.title()}', '' if tag_only else cat[0], '' if tag_only else cat[1], tags))
     return rows
 
 
